@@ -134,6 +134,17 @@ Theorem no_internal_message : forall (wire : list Z), bytes_ok wire ->
 Proof. exact message_from_wire_family. Qed.
 Print Assumptions no_internal_message.
 
+(* hypothesis-free instance: the executable reader that the correspondence ties to the code *)
+Theorem no_internal_message_instance : forall (wire : list Z), bytes_ok wire -> forall bits : Z,
+  match message_from_wire wire (dec_rdata wire None) (opts_of_bits bits) with
+  | (Exn (XInt _), _) => False
+  | (Exn (XLib e), m) =>
+      (is_form e = true \/ e = eUnknownTSIGKey) \/ (e = eTruncated /\ o_raise_trunc (opts_of_bits bits) = true)
+  | (Val _, m) => True
+  end.
+Proof. exact message_from_wire_concrete. Qed.
+Print Assumptions no_internal_message_instance.
+
 (* continue_on_error: after the 12-octet header nothing is raised except the requested
    truncation signal; every failure is recorded (MI: a library error code and an offset with
    12 <= offset <= len(wire)). *)
